@@ -52,6 +52,8 @@ def _run_variant(args):
             col, _ = run_rules(prop, d, "quick")
         except AnalysisError as e:
             return (vid, kind, "analysis-error", str(e)[:200])
+        except Exception as e:  # an internal error of the checker on this variant is reported like the driver reports it
+            return (vid, kind, "analysis-error", f"internal error: {type(e).__name__}: {e}"[:200])
         known = report.load_known()
         viol = [o for o in col.violations if not report.match_known(known, prop, o)]
         if viol:
